@@ -291,7 +291,10 @@ func parseClause(c *Contract, body, file string, ln int) error {
 		}
 		label := f[0]
 		idx := 1
-		if _, err := strconv.Atoi(f[1]); err == nil { // "call 2" / "return 3"
+		if _, err := strconv.Atoi(f[1]); err == nil { // "make 2" / "return 3"
+			label = f[0] + " " + f[1]
+			idx = 2
+		} else if f[0] == "call" { // "call name#k"
 			label = f[0] + " " + f[1]
 			idx = 2
 		}
